@@ -76,7 +76,7 @@ def _parse_generics(g: str) -> List[str]:
         p = p.strip()
         if not p or p.startswith("'"):
             continue
-        p = p.split(":")[0].strip()
+        p = p.split(":")[0].split("=")[0].strip()      # drop bounds and defaults (`ENTRY = JournalEntry`)
         if p.startswith("const "):
             p = p[6:].strip()
         out.append(p)
